@@ -31,6 +31,21 @@ package ecdsa
 //@   ensures ptval(sig.R) == old(ptval(sig.R))
 //@   loop 1: invariant s != nil && fresh(s)
 
+// Per-share check of the online phase (C04): a party is named only if it sent a share and that share fails
+//   sigma_j * R == m * Rbar_j + r * S_j      (m = fromhash(hash), r = x(R))
+// against the stored presignature, or the presignature holds no entry for it; nobody outside the map of shares is named.
+//@ pred sharebad(sig *PreSignature, shares map[party.ID]curve.Scalar, hash []byte, j party.ID) := indom(shares, j) && (sig.RBar.Points[j] == nil || sig.S.Points[j] == nil || act(scval(shares[j]), ptval(sig.R)) != p_add(act(fromhash(bval(hash)), ptval(sig.RBar.Points[j])), act(xcoord(ptval(sig.R)), ptval(sig.S.Points[j]))))
+//@ func (*PreSignature).VerifySignatureShares
+//@   nopanic[C05]
+//@   requires sig != nil && sig.R != nil && sig.RBar != nil && sig.S != nil && shares != nil
+//@   requires forall(k, party.ID, indom(shares, k) ==> shares[k] != nil)
+//@   modifies nothing
+//@   allocates
+//@   ensures[C04] each(culprits, j, sharebad(sig, shares, hash, j))
+//@   ensures culprits == nil || fresh(culprits)
+//@   loop 1: invariant[C04] (culprits == nil || fresh(culprits)) && each(culprits, j, sharebad(sig, shares, hash, j))
+//@   loop 1: invariant r != nil && m != nil && scval(r) == xcoord(ptval(sig.R)) && scval(m) == fromhash(bval(hash))
+
 // A presignature taken from storage is validated before use (C20, C15): no field may be missing.
 //@ func (*PreSignature).Validate
 //@   nopanic[C20,C05]
